@@ -74,6 +74,11 @@ template <int DIM, int ORDER> struct Cfg {
       }
       if (i != n) { fail("iterator", fmt("begin..end visits %d segments, expected %d", i, n)); return false; }
       auto e = pp.end(); --e; if ((*e).index() != n - 1) fail("iterator", "--end() is not the last segment");
+      // post-increment / post-decrement return the OLD position and move by one; a backward walk with --it visits n-1 .. 0
+      { auto a = pp.begin(); int k = 0; bool ok2 = true; while (a != pp.end()) { auto old = a++; ok2 = ok2 && (*old).index() == k && (old - pp.begin()) == k && (a - pp.begin()) == k + 1; ++k; } ok2 = ok2 && k == n;
+        auto z = pp.end(); for (int q = n; q >= 1; --q) { auto old = z--; ok2 = ok2 && (old - pp.begin()) == q && (z - pp.begin()) == q - 1 && (*z).index() == q - 1; } ok2 = ok2 && z == pp.begin();
+        auto w = pp.end(); for (int q = n - 1; q >= 0; --q) { --w; ok2 = ok2 && w->index() == q && w->endTime() == b[q + 1]; } ++c.st.comparisons;
+        if (!ok2) { fail("iterator", "post-increment / post-decrement / backward walk do not visit the segments in order"); return false; } }
       auto pi = pp.begin(); auto old = pi++; if ((*old).index() != 0 || (*pi).index() != (n > 1 ? 1 : 1)) fail("iterator", "post-increment");
       auto pd = pi--; if ((*pd).index() != 1 || (*pi).index() != 0) fail("iterator", "post-decrement");
       if (!(pp.begin() == pp.begin()) || (pp.begin() != pp.begin()) || (n > 0 && pp.begin() == pp.end())) fail("iterator", "comparison operators");
